@@ -103,10 +103,30 @@ def build_reload_edit(spec):
     return y
 
 
+UNKNOWN_NESTED = ("sequence<verif_nocodec>", "set<verif_nocodec>",
+                  "mapping<string,verif_nocodec>", "mapping<verif_nocodec,string>",
+                  "tuple<verif_nocodec>", "variant<verif_nocodec>",
+                  "tuple<sequence<verif_nocodec>,uint8_t>")
+
+
+def earlier_tables_with_unknown_types():
+    """What another IR of the same process may have done before: tables whose
+    type nests a name without codec inside every known container were decoded.
+    Nothing of that may be remembered by the (process-wide) serializer."""
+    import gtirb as g
+
+    for t in UNKNOWN_NESTED:
+        try:
+            g.AuxData.serializer.decode(b"\0" * 16, t)
+        except Exception:  # noqa
+            pass
+
+
 def check_spec(label, spec, orders):
     """returns list of (signature, detail)"""
     out = []
     PV = pb_version()
+    earlier_tables_with_unknown_types()
     want = irgen.expected_snapshot(spec, PV)
     for oi, order in enumerate(orders):
         tag = order
